@@ -84,15 +84,15 @@ def findItemByValue (v : Int) : List (Name × Int) → Option (Name × Int)
   | [] => none
   | (n, x) :: rest => if x = v then some (n, x) else findItemByValue v rest
 
-/-- `ConstantInt.Link`: no range checks (`TODO bounds checks?`); the enum lookup compares
-with `int32(c)`. -/
+/-- `ConstantInt.Link`: an integer must lie in the range of an i8/i16/i32 type (`inRange`); at
+an enum type it denotes the item with exactly that value. -/
 def castInt (k : RootKind) (n : Int) : Option CV :=
   match k with
-  | .int _ => some (.int n)
+  | .int bits => if inRange bits n then some (.int n) else none
   | .double => some (.dbl (doubleOfInt n))
   | .bool => if n = 0 then some (.bool false) else if n = 1 then some (.bool true) else none
   | .enum m en items =>
-    match findItemByValue (wrap32 n) items with
+    match findItemByValue n items with
     | some (item, v) => some (.eref m en item v)
     | none => none
   | _ => none
@@ -252,8 +252,9 @@ def castF : Nat → GProg → Nat → CV → LType → Option CV
     | .uref name =>
       match resolveConst p m name with
       | some (.const cm cn) => castRefF f p cm cn t
-      -- an enum item is taken as is, whatever `t` is (the code performs no cast check here)
-      | some (.item em en item val) => some (.eref em en item val)
+      -- an enum item is accepted at that enum only (`EnumItemReference.Link`)
+      | some (.item em en item val) =>
+        if rootOf p t = some (.named em en) then some (.eref em en item val) else none
       | none => none
 termination_by structural fuel => fuel
 
